@@ -1,0 +1,19 @@
+//go:build verif
+
+package nsqd
+
+import (
+	"os"
+	"time"
+)
+
+// verifAdjustTicker resets the lookupLoop heartbeat ticker to the duration given in
+// the environment variable NSQ_VERIF_HEARTBEAT (e.g. "100ms"); unset or invalid
+// values leave the 15 s interval unchanged.
+func verifAdjustTicker(t *time.Ticker) {
+	if s := os.Getenv("NSQ_VERIF_HEARTBEAT"); s != "" {
+		if d, err := time.ParseDuration(s); err == nil && d > 0 {
+			t.Reset(d)
+		}
+	}
+}
